@@ -16,10 +16,12 @@ package sorted_set
 
 import (
 	"cmp"
+	"encoding/json"
 	"errors"
 	"math"
 	"math/rand"
 	"slices"
+	"strconv"
 	"strings"
 	"unsafe"
 
@@ -473,4 +475,48 @@ func Intersect(aggregate string, setParams ...SortedSetParam) *SortedSet {
 
 		return NewSortedSet(params)
 	}
+}
+
+// persistedMember is the form in which a sorted set member is persisted (snapshots, AOF preamble).
+// The score is kept as text so that -inf and +inf survive.
+type persistedMember struct {
+	Value string `json:"Value"`
+	Score string `json:"Score"`
+}
+
+func init() {
+	internal.RegisterCompositeCodec("zset", internal.CompositeCodec{
+		Marshal: func(v interface{}) ([]byte, bool, error) {
+			s, ok := v.(*SortedSet)
+			if !ok {
+				return nil, false, nil
+			}
+			members := []persistedMember{}
+			if s != nil {
+				for _, m := range s.GetAll() {
+					members = append(members, persistedMember{
+						Value: string(m.Value),
+						Score: strconv.FormatFloat(float64(m.Score), 'g', -1, 64),
+					})
+				}
+			}
+			b, err := json.Marshal(members)
+			return b, true, err
+		},
+		Unmarshal: func(b []byte) (interface{}, error) {
+			var members []persistedMember
+			if err := json.Unmarshal(b, &members); err != nil {
+				return nil, err
+			}
+			params := make([]MemberParam, 0, len(members))
+			for _, m := range members {
+				score, err := strconv.ParseFloat(m.Score, 64)
+				if err != nil {
+					return nil, err
+				}
+				params = append(params, MemberParam{Value: Value(m.Value), Score: Score(score)})
+			}
+			return NewSortedSet(params), nil
+		},
+	})
 }
